@@ -190,8 +190,8 @@ theorem scanAt_spec (o : Oracle) (crc : Bytes → Nat) (src : Bytes)
   | zlib =>
     simp only [scanAt]
     rcases probe_good (Good_of_nopanic (hpanic (src.drop (index + 2)))) with h | ⟨r, hr, h⟩
-    · rw [h, bind_ok]; exact hnone
-    · rw [h, bind_ok]
+    · rw [h, c_bind_ok]; exact hnone
+    · rw [h, c_bind_ok]
       simp only
       split
       · have hle := (verified_spec o _ r hr).2
@@ -206,13 +206,13 @@ theorem scanAt_spec (o : Oracle) (crc : Bytes → Nat) (src : Bytes)
   | gzip =>
     simp only [scanAt]
     rcases probe_good (skipGzipHeader_good (src.drop index)) with h | ⟨hd, hhd, h⟩
-    · rw [h, bind_ok]; exact hnone
-    · rw [h, bind_ok]
+    · rw [h, c_bind_ok]; exact hnone
+    · rw [h, c_bind_ok]
       simp only [List.length_drop] at hhd
       simp only
       rcases probe_good (Good_of_nopanic (hpanic (src.drop (index + hd)))) with h | ⟨r, hr, h⟩
-      · rw [h, bind_ok]; exact hnone
-      · rw [h, bind_ok]
+      · rw [h, c_bind_ok]; exact hnone
+      · rw [h, c_bind_ok]
         simp only
         split
         · have hle := (verified_spec o _ r hr).2
@@ -227,8 +227,8 @@ theorem scanAt_spec (o : Oracle) (crc : Bytes → Nat) (src : Bytes)
   | zip =>
     simp only [scanAt]
     rcases probe_good (parseZipStream_good o hpanic (src.drop index)) with h | ⟨⟨hd, r⟩, hhd, h⟩
-    · rw [h, bind_ok]; exact hnone
-    · rw [h, bind_ok]
+    · rw [h, c_bind_ok]; exact hnone
+    · rw [h, c_bind_ok]
       simp only [List.length_drop, List.drop_drop] at hhd
       obtain ⟨h30, hdle, hr⟩ := hhd
       simp only
@@ -247,12 +247,12 @@ theorem scanAt_spec (o : Oracle) (crc : Bytes → Nat) (src : Bytes)
     split
     · rename_i h4
       rcases probe_good (parseIdat_good crc (src.drop (index - 4))) with h | ⟨⟨c, payload⟩, hp, h⟩
-      · rw [h, bind_ok]; exact hnone
-      · rw [h, bind_ok]
+      · rw [h, c_bind_ok]; exact hnone
+      · rw [h, c_bind_ok]
         simp only
         rcases probe_good (Good_of_nopanic (hpanic payload)) with h | ⟨r, hr, h⟩
-        · rw [h, bind_ok]; exact hnone
-        · rw [h, bind_ok]
+        · rw [h, c_bind_ok]; exact hnone
+        · rw [h, c_bind_ok]
           simp only
           split
           · rename_i hcond
@@ -297,13 +297,13 @@ theorem scanLoop_spec (o : Oracle) (crc : Bytes → Nat) (src : Bytes)
       obtain ⟨hii, hil⟩ := nextSignature_spec src _ _ _ _ hns
       simp only
       obtain ⟨res, hres, hacc⟩ := scanAt_spec o crc src hb hf hpanic i prev sg (by omega) hil
-      rw [hres, bind_ok]
+      rw [hres, c_bind_ok]
       rcases hacc with rfl | ⟨n, X, next, rfl, hok, hnext, hnl, hin⟩
       · simp only
         exact ih (i + 1) prev (by omega) hpl (by omega) (by omega)
       · simp only
         obtain ⟨r, hr, hcov⟩ := ih next next (Nat.le_refl _) hnl (by omega) (by omega)
-        rw [hr, bind_ok]
+        rw [hr, c_bind_ok]
         refine ⟨_, rfl, ?_⟩
         simp only [List.cons_append, List.nil_append, Covers, ChunkOk, Chunk.extent]
         subst hnext
